@@ -24,7 +24,7 @@ def c08_1(R):
         if tup.kind == "rv" and tup.root[1].rv.j.get("ak") == "tuple":
             o0, o1 = tup.root[1].rv.ops
             s0, s1 = value_sources(sn, o0), value_sources(sn, o1)
-            if s0 == {("param", "remote")} and s1 == {("field", "StreamArgs.conn_id_recv")}:
+            if s0 == {("param", 2)} and s1 == {("field", "StreamArgs.conn_id_recv")}:  # new(socket, remote, rx, args)
                 okg = True
     tx = trace(sn, t.args[1])
     if okg and tx.last_field == "UtpSocket.control_requests":
@@ -45,7 +45,7 @@ def c08_1(R):
             else:
                 R.fail([sn.name, "conn_id_send", "sources=" + sources_str(sn, s.rv.ops[j])], "VirtualSocket.conn_id_send is not StreamArgs.conn_id_send", where=s.where(), instance="conn_id_send-source")
             k = s.rv.j["fields"].index("remote")
-            if value_sources(sn, s.rv.ops[k]) != {("param", "remote")}:
+            if value_sources(sn, s.rv.ops[k]) != {("param", 2)}:
                 R.fail([sn.name, "remote", "sources=" + sources_str(sn, s.rv.ops[k])], "VirtualSocket.remote is not the remote parameter", where=s.where(), instance="conn_id_send-source")
     if okd:
         R.ok("drop-guard-stored", sn.name, "VirtualSocket.drop_guard <- that guard")
